@@ -23,6 +23,7 @@ def run(ctx):
     ctx.guard(order, ctx)
     ctx.guard(generators, ctx)
     ctx.guard(forwarding, ctx)
+    ctx.guard(handing_on, ctx)
     ctx.guard(entry, ctx)
     from . import c01 as _c01
     ctx.shared(_c01.order, ctx)                # instances come into being through MetaClass.new only (where the defaults are computed)
@@ -289,6 +290,43 @@ def forwarding(ctx):
             r.check(ok or not own, '%s forwards `%s` to the base constructor' % (q, own[0] if own else '-'), init, construct=q, key='forward',
                     msg='%s accepts `%s` but does not pass it to MetaModel.__init__: identifiers of new instances then come from the default '
                         'generator, not from the one the caller supplied' % (q, own[0] if own else '?'))
+
+
+def handing_on(ctx):
+    '''every other function that is given an id generator (ModelLoader.build_metamodel) hands exactly that object to what it builds'''
+    from .common import resolve_locals
+    repo = ctx.repo
+    r = ctx.rule('C19-HANDON', 'functions that accept an id generator pass it unchanged to the metamodel they create', floor=1,
+                 oracle='property statement (every defaulted unique id comes from the metamodel\'s generator: the one the caller supplied)')
+    takers = set()
+    cands = []
+    for modname, mod in sorted(repo.modules.items()):
+        for c in [n for n in mod.tree.body if isinstance(n, ast.ClassDef)]:
+            for m in c.body:
+                if isinstance(m, ast.FunctionDef) and any('generator' in p_ for p_ in param_names(m)):
+                    if m.name == '__init__':
+                        takers.add(c.name)
+                    else:
+                        takers.add(m.name)
+                        cands.append('%s:%s.%s' % (modname, c.name, m.name))
+        for f in [n for n in mod.tree.body if isinstance(n, ast.FunctionDef)]:
+            if any('generator' in p_ for p_ in param_names(f, skip_self=False)):
+                takers.add(f.name)
+                cands.append('%s:%s' % (modname, f.name))
+    for q in cands:
+        fn = repo.nfunc(q)
+        own = [a.arg for a in fn.args.args + fn.args.kwonlyargs if 'generator' in a.arg]
+        for p_ in own:
+            stores = [n for n in ast.walk(fn) if isinstance(n, ast.Name) and n.id == p_ and isinstance(n.ctx, (ast.Store, ast.Del))]
+            calls = [n for n in ast.walk(fn) if isinstance(n, ast.Call) and (dotted(n.func) or '').split('.')[-1] in takers]
+            passed = []
+            for cl in calls:
+                args = [resolve_locals(fn, a) for a in cl.args if not isinstance(a, ast.Starred)] + [resolve_locals(fn, k.value) for k in cl.keywords if k.arg]
+                passed.append(any(isinstance(a, ast.Name) and a.id == p_ for a in args))
+            ok = not stores and bool(calls) and all(passed)
+            r.check(ok, '%s hands `%s` on unchanged' % (q, p_), fn, construct=q, key='hand-on ' + p_,
+                    msg='%s accepts `%s` but %s: identifiers of new instances then do not come from the generator the caller supplied'
+                        % (q, p_, 'rebinds it before use' if stores else 'does not pass it to %s' % (sorted({(dotted(c.func) or '?') for c in calls}) or 'any constructor')))
 
 
 def generators(ctx):
